@@ -2,6 +2,7 @@ import ChaiVerif.Drv.Arith
 import ChaiVerif.Drv.Lit
 import ChaiVerif.Drv.Stl
 import ChaiVerif.Drv.File
+import ChaiVerif.Drv.Json
 open ChaiVerif.Drv
 
 def main (args : List String) : IO UInt32 := do
@@ -10,5 +11,6 @@ def main (args : List String) : IO UInt32 := do
   | ["literal"] => lineLoop litLine; return 0
   | ["stl"] => lineLoop stlLine; return 0
   | ["file"] => lineLoop fileLine; return 0
+  | ["json"] => lineLoop jsonLine; return 0
   | ["arith-abi"] => (abiLines.forM IO.println); return 0
   | _ => IO.eprintln "usage: chaimodel <mode>"; return 2
